@@ -108,7 +108,7 @@ theorem C10_queue (cfg : Cfg) (tr : List Ev) (s : MuxSt) (hg : bigBuffers tr = t
   rw [← hrc, ← ho.split, ho.got_eq hm, hseen, ← hcfg]
   exact ⟨rfl, ho.qbound⟩
 
-example : ∃ s c, run (MuxSt.init ⟨4, 2⟩)
+example : ∃ s c, run (MuxSt.init { mp := 4, qlen := 2 })
       [.openNew 7 0, .deliver ⟨7, [1]⟩, .deliver ⟨9, [5]⟩, .deliver ⟨7, [2]⟩,
        .read 0 8 8 (.data [1] 1)] = some s ∧
     s.objs[0]? = some c ∧ AList.lookup s.cmap c.id = some 0 ∧ c.queue = [[2]] := by
@@ -118,7 +118,7 @@ example : ∃ s c, run (MuxSt.init ⟨4, 2⟩)
     (`cap < len`) returns ENOMEM and the frame is gone — the next Read returns the frame
     after it (reproduced on the real code, excluded stream of the check). -/
 theorem unguarded_small_buffer_loses_frame :
-    ∃ s, run (MuxSt.init ⟨4, 4⟩)
+    ∃ s, run (MuxSt.init { mp := 4, qlen := 4 })
         [.openNew 1 0, .deliver ⟨1, [1, 2, 3]⟩, .deliver ⟨1, [4]⟩,
          .read 0 2 2 .enomem, .read 0 2 2 (.data [4] 1)] = some s ∧
       received 0 [.openNew 1 0, .deliver ⟨1, [1, 2, 3]⟩, .deliver ⟨1, [4]⟩,
@@ -127,7 +127,7 @@ theorem unguarded_small_buffer_loses_frame :
 
 /-- … and with `len < frame ≤ cap` Read reports more bytes than it copied. -/
 theorem unguarded_short_len_truncates :
-    ∃ s, run (MuxSt.init ⟨4, 4⟩)
+    ∃ s, run (MuxSt.init { mp := 4, qlen := 4 })
         [.openNew 1 0, .deliver ⟨1, [1, 2, 3]⟩, .read 0 2 8 (.data [1, 2] 3)] = some s :=
   ⟨_, rfl⟩
 
